@@ -87,7 +87,7 @@ def matchK (stream maxp : String) (impl : List String) : String :=
         (match matcherOf name with
          | some m =>
            let model := String.ofList ((List.range (mp + 1)).map (fun k => mrChar (m (s.take k))))
-           (name, model, str, specMono str.toList && str.length == mp + 1)
+           (name, model, str, specMono str.toList && str.length == mp + 1 && str.toList.all (fun ch => ch == 'A' || ch == 'S' || ch == 'F'))
          | none => (name, "?", str, false))
       | _ => (e, "?", "", false))
     let agree := results.all (fun r => r.2.1 == r.2.2.1)
